@@ -22,6 +22,30 @@ def punydecode(alabel):
         return None
 
 
+def mapped_spellings(d, rng, k=4):
+    """U spellings that UTS#46 maps onto the ASCII domain d: fullwidth letters/digits/hyphen, the IDNA full stops, inserted
+    soft hyphens / zero-width spaces, upper case.  (Judged only when this libidn2 really converts them to d.)"""
+    def fw(c):
+        if 0x21 <= c <= 0x7e and c != 0x2e:
+            return chr(c + 0xfee0)
+        return chr(c)
+    s = d.decode("ascii")
+    out = set()
+    out.add("".join(fw(ord(c)) for c in s))                                   # everything fullwidth (dots stay ASCII)
+    out.add("".join(fw(ord(c)) if c != "." else "。" for c in s))              # + ideographic full stop
+    out.add(s.replace(".", "．"))
+    out.add(s.replace(".", "｡"))
+    for _ in range(k):
+        t = "".join(fw(ord(c)) if rng.random() < 0.4 and c != "." else (c.upper() if rng.random() < 0.3 else c) for c in s)
+        if rng.random() < 0.5:
+            i = rng.randrange(len(t) + 1)
+            t = t[:i] + rng.choice(["\u00ad", "\u200b"]) + t[i:]
+        t = "".join(rng.choice(["。", "．", "."]) if c == "." else c for c in t)
+        out.add(t)
+    out.discard(s)
+    return sorted(x.encode("utf-8") for x in out)
+
+
 def tld_domains(tier, rng, mdl):
     """G-TLD: every table row x case forms x 1-4 preceding labels; near misses of every row; random unlisted labels."""
     out = []
@@ -153,9 +177,12 @@ def w_uforms(exe, pairs, src):
     cnt = part["counters"]
     mdl = _model.Model()
     doms = []
-    for u, a, cls in pairs:
+    for k, (u, a, cls) in enumerate(pairs):
         doms.append((b"mail." + u, b"mail." + a, cls))
         doms.append((u + b"." + u, a + b"." + a, cls))
+        dot = ["。", "．", "｡"][k % 3].encode("utf-8")
+        doms.append((b"mail" + dot + u, b"mail." + a, cls))          # IDNA full stop as the only separator
+        doms.append((u + dot + b"x." + u, a + b".x." + a, cls))
     lines = []
     for ud, ad, cls in doms:
         lines.append(driver.A_line(b"x@" + ud, sections=3 | 4 | 8, modes=8, tlds=2, allow=mdl.all_bits))
@@ -207,7 +234,8 @@ def special_domains(tier, rng):
                   b"com.example", b"example.test", b"example.invalid", b"example.onion", b"example.localhost",
                   b"localhost.localdomain", b"invalid.com", b"onion.net", b"test.org", b"example.com.com", b"example.net.uk"])
     tails = sorted(set(suffixes) | {n for n in neigh if n})
-    fillers = [b"example", b"test", b"abcdefg", b"invalid", b"a", b"com", b"exampl", b"examples", b"onion", b"localhost"]
+    fillers = [b"example", b"test", b"abcdefg", b"invalid", b"a", b"com", b"exampl", b"examples", b"onion", b"localhost",
+               b"xn--80a1acny", b"xn--p1ai", b"XN--E1AFMKFD", b"a.xn--80akhbyknj4f", b"1", b"a-b", b"x" * 63]
     out = set()
     lens = range(1, 64) if tier != "quick" else list(range(1, 12)) + [62, 63]
     for t in tails:
@@ -238,6 +266,58 @@ def special_domains(tier, rng):
             out.add(b"Foo." + bytes(b))
             out.add(b"abcdefg." + bytes(b))
     return sorted(d for d in out if OD.host_accepts(d) and not d.endswith(b"."))
+
+
+def special_idn_domains(tier, rng):
+    """Non-ASCII spellings around the reserved names: U-label front labels, UTS#46-mapped spellings of the reserved part."""
+    suffixes = list(OD.RESERVED_TLD) + list(OD.RESERVED_2LD)
+    neighbours = [b"tests", b"example.co", b"exampleA", b"xexample.com", b"example.comm", b"invalids", b"onions", b"local", b"a.com"]
+    out = set()
+    fronts = ["почта", "在线", "é", "δοκιμή", "ü-x", "삼성"]
+    for s in suffixes + neighbours:
+        for f in fronts:
+            out.add(f.encode("utf-8") + b"." + s)
+            out.add(b"a." + f.encode("utf-8") + b"." + s)
+        for m in mapped_spellings(s, rng, 6 if tier == "quick" else 30):
+            out.add(m)
+            out.add(b"mail." + m)
+            out.add("почта.".encode("utf-8") + m)
+    return sorted(out)
+
+
+def w_special_idn(exe, domains, src):
+    """Mode 6531 only: classified special iff the A-label form libidn2 produces is a reserved name."""
+    part = new_part()
+    cnt = part["counters"]
+    mdl = _model.Model()
+    SP = mdl.class_number("SPECIAL")
+    lines = [driver.A_line(b"x@" + d, sections=2 | 4 | 8, modes=8, tlds=2) for d in domains]
+    recs, crashes = driver.run_lines_resilient(exe, lines)
+    for idx, sig, err in crashes:
+        part["viol"].append(("crash/%s" % sig, {"domain": core.b2s(domains[idx]) if idx >= 0 else ""}, {"stderr": err[-1500:]}))
+    for d, r in zip(domains, recs):
+        if r is None or not r.get("dom"):
+            continue
+        i2rc, i2 = r["dom"][8], r["dom"][9]
+        if i2rc != 0 or i2 is None:
+            cnt["idn.not-convertible"] += 1
+            continue
+        a = bytes.fromhex(i2)
+        if not OD.host_accepts(a) or a.endswith(b"."):
+            cnt["idn.converted-not-a-plain-host"] += 1
+            continue
+        exp = OD.is_special(a)
+        cnt["expected." + ("special" if exp else "not-special")] += 1
+        cnt["calls"] += 1
+        l = r["ll"]["7"]
+        if (l[3] == SP) != exp:
+            part["viol"].append(("iff/6531/%s/idn-spelling" % ("missed" if exp else "spurious"),
+                                 {"domain": core.b2s(d), "hex": d.hex(), "a_label_form": core.b2s(a), "mode": "6531"},
+                                 {"rc": l[3], "source": src}))
+    part["distinct"] = len(set(domains))
+    if domains:
+        part["samples"].append({"source": src, "domain": core.b2s(domains[len(domains) // 2])})
+    return part
 
 
 def w_special(exe, domains, src):
@@ -340,6 +420,12 @@ def idn_domains(tier, rng, mdl):
             U = ".".join(labs).encode("utf-8")
             A = b".".join(to_alabel(l) for l in labs)
         out.append((U, A))
+    # UTS#46-mapped spellings (fullwidth, IDNA full stops, ignorable code points, upper case) of plain ASCII domains
+    plain = [b"example.com", b"foo.test", b"localhost", b"a.invalid", b"x.onion", b"example.org", b"mail.ru", b"iana.org", b"a-b.museum",
+             b"nic.aaa", b"a1.b2.c3.info", b"pppppp", b"a.zzzz"]
+    for d in plain:
+        for m in mapped_spellings(d, rng, 3 if tier == "quick" else 25):
+            out.append((m, d))
     # upper-/mixed-case A-label spellings (DNS names are case-insensitive; libidn2 lower-cases): same treatment as the U spelling
     for (U, A) in list(out[:400 if tier == "quick" else 6000]):
         if b"xn--" in A:
